@@ -17,6 +17,7 @@ import (
 	"context"
 	"crypto/sha256"
 	"encoding/binary"
+	"encoding/json"
 	"errors"
 	"fmt"
 	"io"
@@ -963,6 +964,18 @@ func c13Bubble(t *testing.T, f func()) (err error) {
 // deadline. It returns how many were run. infra collects infrastructure errors (no verdict).
 func c13Each(t *testing.T, r *vrep.Result, n int, run func(i int) error) int64 {
 	si, sn := vrep.Shard()
+	if rp := vrep.ReplayPath(); rp != "" {
+		// check.py C13 --replay <file> [--tier as recorded in the file]: re-run exactly that case
+		idx, ok := c13ReplayIndex(rp, r.Part)
+		if ok && si == 0 && idx >= 0 && idx < n {
+			if err := run(idx); err != nil {
+				t.Errorf("c13: infrastructure problem replaying case %d: %v", idx, err)
+			}
+			r.Note("replayed case %d of part %s (%d violations)", idx, r.Part, r.NViolations)
+			return 1
+		}
+		return 0
+	}
 	workers := c13Workers()
 	var next atomic.Int64
 	var done atomic.Int64
@@ -1008,6 +1021,24 @@ func c13Each(t *testing.T, r *vrep.Result, n int, run func(i int) error) int64 {
 		r.Cap("%d cases ended with an infrastructure error (no verdict for them)", nerr)
 	}
 	return done.Load()
+}
+
+func c13ReplayIndex(path, part string) (int, bool) {
+	b, err := os.ReadFile(path)
+	if err != nil {
+		return 0, false
+	}
+	var f struct {
+		Part   string `json:"part"`
+		Replay struct {
+			Part  string `json:"part"`
+			Index *int   `json:"case_index"`
+		} `json:"replay"`
+	}
+	if json.Unmarshal(b, &f) != nil || f.Replay.Index == nil || f.Replay.Part != part {
+		return 0, false
+	}
+	return *f.Replay.Index, true
 }
 
 func c13Workers() int {
